@@ -1535,27 +1535,16 @@ Proof.
 Qed.
 
 (* ================================================================== 14. the session's grid *)
-Section SessionGen.
-  Variable ins : grid -> quad -> grid.
-  Definition step_gen (g : grid) (o : sop) : grid := match o with SInsert q => ins g q | _ => g end.
-  Lemma step_gen_fold ops : forall g, fold_left step_gen ops g = fold_left ins (inserted ops) g.
-  Proof.
-    induction ops as [|o ops IH]; intro g; [reflexivity|].
-    destruct o; cbn [fold_left step_gen inserted]; apply IH.
-  Qed.
-End SessionGen.
-
-Lemma fold_left_ext {A B} (f f' : A -> B -> A) l : (forall a b, f a b = f' a b) -> forall a, fold_left f l a = fold_left f' l a.
-Proof. intro E. induction l as [|b l IH]; intro a; [reflexivity|]. cbn [fold_left]. rewrite E. apply IH. Qed.
-
-Lemma sess_step_gen g o : sess_step false g o = step_gen insert g o.
-Proof. destruct o; reflexivity. Qed.
+Lemma session_retention_gen (ins : grid -> quad -> grid) ops : forall g,
+  fold_left (sess_step_with ins false) ops g = fold_left ins (inserted ops) g.
+Proof.
+  induction ops as [|o ops IH]; intro g; [reflexivity|].
+  destruct o; cbn [fold_left sess_step_with inserted]; apply IH.
+Qed.
 
 Theorem session_retention ops :
   sess_run false ops = fold_left insert (inserted ops) (new_grid 1 1 module_resolution).
-Proof.
-  unfold sess_run. rewrite (fold_left_ext _ _ ops sess_step_gen). apply step_gen_fold.
-Qed.
+Proof. unfold sess_run, sess_run_with. apply session_retention_gen. Qed.
 
 (* with an Init that replaces the grid at every join the stored planes are lost (finding F3) *)
 Definition f3_quad : quad := new_quad (mkVec 1 0 1) (mkVec (1 # 2) 0 (1 # 2)) 0.
@@ -1570,3 +1559,22 @@ Proof.
   unfold valid_quad_b, valid_quad, veq_bool, veq. rewrite !andb_true_iff.
   rewrite !Qlt_bool_iff, !Qle_bool_iff, !Qeq_bool_iff, isz_iff. tauto.
 Qed.
+
+(* ================================================================== 16. satisfiability of the hypotheses *)
+Lemma covers_cover g : covers g (cover_lo g) (cover_hi g).
+Proof. unfold covers, cover_lo, cover_hi. cbn [vx vz]. repeat split; lra. Qed.
+
+Lemma centre_ray_spans q : spans (centre_ray q) q.
+Proof.
+  unfold spans, centre_ray. cbn [rfrom rto vx vy vz]. repeat split; try reflexivity.
+  right. repeat split; lra.
+Qed.
+
+(* three quads: an append, a second append that grows the grid to the right, a sample that merges into the first *)
+Definition ex_qs : list quad :=
+  [ new_quad (mkVec 0 0 0) (mkVec 1 0 1) 0;
+    new_quad (mkVec 3 0 (1 # 2)) (mkVec (1 # 2) 0 (1 # 4)) 0;
+    new_quad (mkVec (1 # 4) (1 # 4) (-1 # 2)) (mkVec 2 0 1) 0 ].
+
+Lemma ex_qs_valid : Forall valid_quad ex_qs.
+Proof. repeat constructor; apply valid_quad_b_correct; vm_compute; reflexivity. Qed.
